@@ -489,11 +489,13 @@ fn fam_8(thorough: bool) -> Vec<Case> {
     // stream shapes: 0 = pseudo-random keys; 1 = every window closes on an already tracked element (a heavy hitter at the
     // last two positions of each window) while everything else is new - the worst case for a pruning pass tied to the
     // kind of element that closes a window
-    for &(w, stream) in &[(10usize, 0usize), (100, 0), (10, 1), (100, 1), (7, 1)] {
+    // constructors: with_width(w), and with_epsilon(eps) for epsilons whose reciprocal is not a whole number (w0 = 0)
+    for &(w0, eps, stream) in &[(10usize, 0.0f64, 0usize), (100, 0.0, 0), (10, 0.0, 1), (100, 0.0, 1), (7, 0.0, 1), (0, 0.3, 0), (0, 0.015, 0), (0, 0.3, 1), (0, 0.015, 1), (0, 0.0707, 1)] {
         let base = live();
             let mut noise = 0i64;
-        let mut l = LossyCounter::<u64>::with_width(w);
-        let mut c = Case { name: format!("LossyCounter width={}{}", w, if stream == 1 { " (windows closing on a tracked element)" } else { "" }), documented: 0.0, points: vec![], flat: vec![] };
+        let mut l = if w0 > 0 { LossyCounter::<u64>::with_width(w0) } else { LossyCounter::<u64>::with_epsilon(eps) };
+        let w = l.width();
+        let mut c = Case { name: format!("LossyCounter {}{}", if w0 > 0 { format!("width={}", w) } else { format!("epsilon={} (width {})", eps, w) }, if stream == 1 { " (windows closing on a tracked element)" } else { "" }), documented: 0.0, points: vec![], flat: vec![] };
             noise += c.name.capacity() as i64;
         let mut n = 0usize;
         for &len in &ls {
@@ -532,7 +534,8 @@ fn main() {
     let mut run = Runner::new("C11", &args.tier, "exploration");
     let thorough = run.thorough();
     let fams: Vec<usize> = (0..9).collect();
-    let results = checks::par::par_map(&fams, checks::par::n_threads(), |&i| match i {
+    // a panic of the code under test inside a family is a verdict on that family, not a crash of the check
+    let results = checks::par::par_map(&fams, checks::par::n_threads(), |&i| mccore::panics::catch(|| match i {
         0 => fam_0(thorough),
         1 => fam_1(thorough),
         2 => fam_2(thorough),
@@ -543,8 +546,14 @@ fn main() {
         7 => fam_7(thorough),
         8 => fam_8(thorough),
         _ => vec![],
-    });
-    let cases: Vec<Case> = results.into_iter().flatten().collect();
+    }));
+    let mut cases: Vec<Case> = vec![];
+    for (i, r) in results.into_iter().enumerate() {
+        match r {
+            Ok(cs) => cases.extend(cs),
+            Err(p) => run.violation(Viol { property: "C11".into(), signature: format!("family {} panics", i), message: format!("a constructor or operation of measurement family {} (0 Bloom, 1 cuckoo, 2 quotient, 3 CMS, 4 HLL, 5 T-digest, 6 reservoir, 7 CMSHeap, 8 lossy counter) panicked: {}", i, p), replay: json!({"family": i, "panic": p}) }),
+        }
+    }
     // ---- verdicts ---------------------------------------------------------------------------
     let mut rows = vec![];
     let mut measurements = 0u64;
